@@ -10,7 +10,7 @@ COQ_IMPORTS = 'From PB Require Import model.M_sort.\n'
 PER_FILE = 500
 CASE_TIMEOUT = 5
 RULE = ('cases: (1) cmp on ALL ordered pairs of a fixed %d-value universe (None, bools, np.bool_, ints, floats, np ints/floats, adjacent ints beyond 2^53 and float(2**53), two NaN objects, '
-        '+-inf, strings incl. non-ASCII, datetimes/dates/np.datetime64, empty and non-empty tuples/lists/dicts, nested, two distinct empty dicts), '
+        '+-inf, strings incl. non-ASCII, datetimes/dates/np.datetime64, empty and non-empty tuples/lists/dicts (string, int, float, None, bool, datetime and mixed-type keys), nested, two distinct empty dicts, pd.Timestamp / np.datetime64 equal and unequal to datetimes, containers differing only by True vs 1 vs 1.0), '
         'one case per row, compared entry by entry with the model, plus the laws (range, reflexive, antisymmetric, transitive, int/float 0, NaN above '
         'finite) on all pairs and all triples of the real matrix; (2) random nested triples (x, perturbed x, perturbed again) - all 9 comparisons '
         'compared with the model, laws checked; (3) sort(xs) and sorted(xs, key=Cmp) on lists (0-8, thorough 0-12) of scalars from the property domain '
@@ -27,7 +27,8 @@ EXPLANATION = ('theorems C07_* (coq/props/C07.v) hold for every value of the nes
 TRUSTED = ['modelled, not verified: CPython sorted() is a stable sort (insertion sort in the model), dict insertion order, str comparison by code point',
            'harness mapping of python / numpy scalars to model values (as_primitive is exercised by the real cmp; the model starts from the primitive)']
 ASSUMPTIONS = ['ints are exact at any size (cmp compares ints exactly since /repo d277e58; adjacent ints beyond 2^53 and 10**30 are generated); floats are half-integers '
-               'of magnitude < 2^50 or the exactly representable float(2**53), so python floats and the model\'s exact arithmetic agree', 'dict keys are strings',
+               'of magnitude < 2^50 or the exactly representable float(2**53), so python floats and the model\'s exact arithmetic agree', 'dict keys are hashable values of any, also mixed, types (items are ordered by cmp of their keys, as /repo does since 61f2e35)',
+               'pd.Timestamp, np.datetime64 and datetime.date are datetimes (one model value); +-inf rank with NaN by library design (`is_nan` documents "nan or inf")',
                'sort / table cells: None, ints, finite floats, NaN, strings, datetimes (bools and +-inf only in the cmp laws, as the property says)']
 EXHAUSTIVE = {'quick': False, 'thorough': False}
 
@@ -51,7 +52,7 @@ def build(v, nans):
     if k == 'd': return us2dt(a)
     if k == 't': return tuple(build(x, nans) for x in a)
     if k == 'l': return [build(x, nans) for x in a]
-    if k == 'm': return {kk: build(x, nans) for kk, x in a}
+    if k == 'm': return {(kk if isinstance(kk, str) else build(kk, nans)): build(x, nans) for kk, x in a}      # a key is a str or any JSON value
     import numpy as np
     if k == 'npb': return np.bool_(a)
     if k == 'npi': return np.int64(a)
@@ -64,6 +65,9 @@ def build(v, nans):
             nans[key] = np.float64('nan')
         return nans[key]
     if k == 'npd': return np.datetime64(us2dt(a))
+    if k == 'pdt':
+        import pandas as pd
+        return pd.Timestamp(us2dt(a))
     if k == 'date': return us2dt(a).date()
     raise ValueError(v)
 
@@ -87,10 +91,10 @@ def coq_val(v):
         if all(32 <= ord(c) < 127 for c in a):
             return '(S_ %s)' % coq_str_lit(a)
         return '(VStr [%s])' % '; '.join('%d%%N' % ord(c) for c in a)
-    if k in ('d', 'npd', 'date'): return '(VDate (%d))' % a
+    if k in ('d', 'npd', 'date', 'pdt'): return '(VDate (%d))' % a
     if k == 't': return '(VTuple [%s])' % '; '.join(coq_val(x) for x in a)
     if k == 'l': return '(VList [%s])' % '; '.join(coq_val(x) for x in a)
-    if k == 'm': return '(VDict [%s])' % '; '.join('(SN %s, %s)' % (coq_str_lit(kk), coq_val(x)) for kk, x in a)
+    if k == 'm': return '(VDict [%s])' % '; '.join('(%s, %s)' % (coq_val(['s', kk] if isinstance(kk, str) else kk), coq_val(x)) for kk, x in a)
     raise ValueError(v)
 
 def canon(x, nans):
@@ -114,8 +118,10 @@ def canon(x, nans):
         return ['i', int(x)]
     if isinstance(x, str):
         return ['s', str(x)]
-    if isinstance(x, datetime.datetime):
-        return ['d', dt2us(x)]
+    if tn == 'datetime64':
+        x = x.astype('datetime64[us]').item()
+    if isinstance(x, datetime.datetime):            # pd.Timestamp is a datetime
+        return ['d', dt2us(datetime.datetime(x.year, x.month, x.day, x.hour, x.minute, x.second, x.microsecond))]
     if isinstance(x, datetime.date):
         return ['d', dt2us(datetime.datetime(x.year, x.month, x.day))]
     if isinstance(x, tuple):
@@ -123,14 +129,14 @@ def canon(x, nans):
     if isinstance(x, list):
         return ['l', [canon(y, nans) for y in x]]
     if isinstance(x, dict):
-        return ['m', [[str(k), canon(y, nans)] for k, y in x.items()]]
+        return ['m', [[canon(k, nans), canon(y, nans)] for k, y in x.items()]]
     return ['?', tn]
 
 def vrank_type(v):
     """type rank of a JSON value (for non-triviality only)"""
     if v is None: return 0
     k = v[0]
-    return {'b': 1, 'npb': 1, 'd': 2, 'npd': 2, 'date': 2, 'm': 3, 'i': 4, 'f': 4, 'nan': 4, 'inf': 4, 'npi': 4, 'npf': 4, 'npi32': 4, 'npf32': 4, 'npnan': 4, 'l': 5, 's': 6, 't': 7}[k]
+    return {'b': 1, 'npb': 1, 'd': 2, 'npd': 2, 'date': 2, 'pdt': 2, 'm': 3, 'i': 4, 'f': 4, 'nan': 4, 'inf': 4, 'npi': 4, 'npf': 4, 'npi32': 4, 'npf32': 4, 'npnan': 4, 'l': 5, 's': 6, 't': 7}[k]
 
 D0 = 737425 * DAYUS     # 2020-01-01
 FUT = 821700 * DAYUS + 86399999999      # the last microsecond of a day in 2250
@@ -145,6 +151,14 @@ UNIVERSE = [
     ['nan', 0], ['nan', 1], ['npnan', 0], ['inf', False], ['inf', True],
     ['s', ''], ['s', 'a'], ['s', 'A'], ['s', 'ab'], ['s', 'b'], ['s', 'None'], ['s', '1'], ['s', 'é'], ['s', 'a中'],
     ['d', D0], ['d', D0 + 1000000], ['date', D0], ['npd', D0 + 1000000], ['d', D0 - DAYUS], ['d', D0 + 1], ['d', FUT], ['d', PAST], ['date', FUT - 86399999999],
+    ['pdt', D0], ['pdt', D0 + 1000000], ['pdt', D0 + 1], ['npd', D0], ['pdt', FUT], ['t', [['pdt', D0], ['i', 1]]], ['t', [['d', D0], ['i', 1]]], ['m', [[['pdt', D0], ['i', 1]]]], ['m', [[['d', D0], ['i', 1]]]],
+    # a bool and a numerically equal int / float at the same position, depth 1 and 2, with neighbours (True == 1 natively but cmp ranks bool below numbers)
+    ['t', [['b', True]]], ['t', [['b', False]]], ['t', [['i', 0]]], ['t', [['f', 0]]], ['t', [['f', 1]]], ['l', [['b', True]]], ['l', [['f', 2]]], ['l', [['f', 1]]],
+    ['t', [['t', [['b', True]]]]], ['t', [['t', [['i', 1]]]]], ['t', [['t', [['f', 2]]]]], ['t', [['t', [['f', 1]]]]], ['t', [['t', [['i', 2]]]]], ['l', [['l', [['b', False]]]]], ['l', [['l', [['i', 0]]]]], ['l', [['l', [['f', -1]]]]],
+    ['m', [['a', ['b', True]]]], ['m', [['a', ['f', 1]]]], ['m', [['a', ['l', [['b', True]]]]]], ['m', [['a', ['l', [['i', 1]]]]]], ['m', [['a', ['l', [['f', 1]]]]]],
+    # dict keys of other and of mixed types (items are sorted by Cmp of their keys)
+    ['m', [[['i', 1], ['i', 1]], ['a', ['i', 2]]]], ['m', [[['i', 1], ['i', 1]], ['a', ['i', 3]]]], ['m', [['a', ['i', 2]], [['f', 2], ['i', 1]]]], ['m', [[None, ['i', 1]], [['i', 2], ['s', 'x']]]],
+    ['m', [[['f', 5], ['i', 1]], ['a', ['i', 1]]]], ['m', [[['b', True], ['i', 1]], [['d', D0], None]]], ['m', [[['i', 2], ['i', 1]]]], ['m', [[['nan', 0], ['i', 1]], [['i', 2], ['i', 2]]]],
     ['npi32', 2], ['npf32', 3], ['l', [['i', 1]] * 150 + [['i', 2]]], ['l', [['i', 1]] * 150 + [['f', 4]]], ['l', [['f', 2]] * 150 + [['i', 3]]],
     ['t', []], ['l', []], ['m', []], ['m', []],
     ['t', [['i', 1]]], ['t', [['f', 2]]], ['t', [['i', 2]]], ['t', [['i', 1], ['i', 2]]], ['t', [['i', 1], ['s', 'a']]], ['t', [None]],
@@ -162,7 +176,9 @@ def ext_universe():
     """values the Coq model does not represent (non-string dict keys, more numpy scalar types): the property's laws only"""
     import numpy as np
     nan = float('nan')
-    return [None, True, 1, 1.0, np.int8(1), np.int16(2), np.float16(1.5), 1.5, np.float32(nan), nan, np.str_('a'), 'a', 'b',
+    import pandas as pd
+    return [pd.Timestamp('2250-06-01'), pd.Timestamp('2250-06-01 00:00:00.000001'), {1: 1, 'a': 2}, {1: 1, 'a': 3}, {(1, 2): 1, 'a': 2}, {None: 0, 1: 1, 'a': 2, 2.5: 3},
+            None, True, 1, 1.0, np.int8(1), np.int16(2), np.float16(1.5), 1.5, np.float32(nan), nan, np.str_('a'), 'a', 'b',
             {1: 'a'}, {1: 'b'}, {2: 'a'}, {1.0: 'a'}, {(1, 2): 1}, {(1, 3): 1}, {None: 1}, {'a': {1: 2}}, {'a': {1: 3}}, {True: 1},
             datetime.date(2250, 6, 1), datetime.datetime(2250, 6, 1), datetime.datetime(2250, 6, 1, 0, 0, 0, 1), np.datetime64('1900-01-01T00:00:00.000001'),
             (np.int8(1), np.float16(1.5)), [np.int16(2)], 10 ** 30, -10 ** 30, float(2 ** 60), 2 ** 60, 2 ** 60 + 1]
@@ -394,6 +410,7 @@ def canon_json(v):
     """canonical observation of a JSON value without building it (domain of sort / tables only)"""
     if v is None: return None
     if v[0] == 't': return ['t', [canon_json(x) for x in v[1]]]
+    if v[0] in ('pdt', 'npd', 'date'): return ['d', v[1]]
     return list(v)
 
 def shape(case):
@@ -421,7 +438,7 @@ def rand_num(rng):
     if r < 0.95: return ['i', rng.choice([2 ** 40, -2 ** 40, 10 ** 9, 7])]
     return ['f', rng.choice([2 ** 41 + 1, -5, 15])]
 def rand_date(rng):
-    return ['d', rng.choice([D0, D0, D0 + 1000000, D0 + DAYUS, D0 - DAYUS, D0 + 37 * DAYUS + 3600 * 10 ** 6, D0 + 1, D0 + 999999, FUT, PAST])]    # incl. sub-second, far future, far past
+    return ['pdt' if rng.random() < 0.15 else 'd', rng.choice([D0, D0, D0 + 1000000, D0 + DAYUS, D0 - DAYUS, D0 + 37 * DAYUS + 3600 * 10 ** 6, D0 + 1, D0 + 999999, FUT, PAST])]    # incl. sub-second, far future, far past
 def rand_domain_scalar(rng, w=None):
     """a scalar of the sort / table domain: None, ints, finite floats, NaN, str, datetimes"""
     r = rng.random()
@@ -442,6 +459,7 @@ def rand_scalar(rng):
     if r < 0.95: return ['date', D0 + rng.choice([0, DAYUS, -DAYUS])]
     if r < 0.97: return ['npd', D0 + rng.choice([0, 1000000, DAYUS])]
     return ['s', rng.choice(['é', 'a中', 'z', 'B'])]
+DKEYS = ['a', 'b', 'c', 'ab', 'B', ['i', 2], ['i', 7], ['f', 5], None, ['d', D0], ['b', True], ['nan', 0], ['pdt', D0 + 1]]
 def rand_val(rng, depth):
     r = rng.random()
     if depth <= 0 or r < 0.45:
@@ -449,7 +467,7 @@ def rand_val(rng, depth):
     n = rng.choice([0, 1, 1, 2, 2, 3])
     if r < 0.65: return ['t', [rand_val(rng, depth - 1) for _ in range(n)]]
     if r < 0.82: return ['l', [rand_val(rng, depth - 1) for _ in range(n)]]
-    keys = rng.sample(['a', 'b', 'c', 'ab', 'B'], n)
+    keys = rng.sample(DKEYS if rng.random() < 0.5 else DKEYS[:5], n)            # string keys, or keys of mixed types
     return ['m', [[k, rand_val(rng, depth - 1)] for k in keys]]
 def fok(twice):
     """twice/2 is exactly a python float"""
@@ -460,6 +478,8 @@ def perturb(rng, v, depth=3):
     """a value close to v: same shape, one small change (or none)"""
     r = rng.random()
     if v is None or v[0] not in ('t', 'l', 'm') or r < 0.15:
+        if v is not None and v[0] == 'b' and r < 0.7: return rng.choice([['i', int(v[1])], ['f', 2 * int(v[1])]])          # True -> 1 / 1.0
+        if v is not None and v[0] in ('i', 'f') and v[1] in (0, 1, 2) and (v[0] == 'i' or v[1] != 1) and r < 0.25: return ['b', bool(v[1])]
         if v is not None and v[0] in ('i', 'npi') and r < 0.5 and fok(2 * v[1]): return ['f', 2 * v[1]]
         if v is not None and v[0] in ('f', 'npf') and v[1] % 2 == 0 and r < 0.5: return ['i', v[1] // 2]
         if v is not None and v[0] == 'nan' and r < 0.6: return rng.choice([['nan', (v[1] + 1) % 3], ['inf', False], ['inf', True]])
@@ -475,7 +495,7 @@ def perturb(rng, v, depth=3):
         if a and r < 0.8:
             i = rng.randrange(len(a)); a[i][1] = perturb(rng, a[i][1], depth - 1); rng.shuffle(a); return ['m', a]
         if a and r < 0.9:
-            i = rng.randrange(len(a)); free = [x for x in ['a', 'b', 'c', 'ab', 'B'] if x not in [kk for kk, _ in a]]
+            i = rng.randrange(len(a)); free = [x for x in DKEYS if x not in [kk for kk, _ in a]]
             a[i][0] = rng.choice(free); return ['m', a]
         return v
     a = list(a)
@@ -514,7 +534,7 @@ def rand_column(rng, n, mode=None):
         elif mode == 'nums': out.append(rng.choice([['i', rng.randrange(0, 3)], ['f', 2 * rng.randrange(0, 3)], ['f', rng.randrange(-2, 5)]]))
         elif mode == 'numsnan': out.append(['nan', rng.randrange(2)] if rng.random() < 0.3 else ['i', rng.randrange(0, 3)])
         elif mode == 'strs': out.append(['s', rng.choice(STRS[:5])])
-        elif mode == 'dates': out.append(rand_date(rng))
+        elif mode == 'dates': out.append(['npd', rng.choice([D0, D0 + 1, D0 + DAYUS])] if rng.random() < 0.1 else rand_date(rng))      # datetime / pd.Timestamp / np.datetime64 of equal and unequal values
         elif mode == 'none': out.append(None if rng.random() < 0.6 else ['i', 1])
         else: out.append(rand_domain_scalar(rng))
     return mode, out
